@@ -1350,7 +1350,14 @@ def special_c09(prop, tier, seed, bins, out, problems):
     extra_coverage[prop]["rule_extra"] = "frozen-thread stream: known-size kinds with one thread frozen after k of its steps while the harness picks the schedule of the others; the chosen schedules are replayed on the model"
 
 
-SPECIAL["C09"] = special_c09
+def special_c09_all(prop, tier, seed, bins, out, problems):
+    special_c09(prop, tier, seed, bins, out, problems)
+    if not ONLY:
+        # an element whose destructor panics while the machinery destroys it: pulls made afterwards return
+        run_probe_dir(prop, "c08", out, problems)
+
+
+SPECIAL["C09"] = special_c09_all
 
 
 def special_c14(prop, tier, seed, bins, out, problems):
@@ -1407,7 +1414,7 @@ def chunk_style_stream(prop, tier, seed, bins, out, problems, kinds=None, chks=(
     for i in range(n):
         c = gen_cases.gen_conc(r, "%s-style-%d" % (prop, i), dict(next=2, chunk=6, buf=4, skip=1),
                                kinds=kinds or [("vec", 4), ("array", 3), ("iter", 3)], owning_only=(kinds is None))
-        c["chunkstyle"] = r.choice(["nth", "skip", "last", "count", "fold", "stepby", "nextnth", "nextskip", "nextstep", "foldpanic"])
+        c["chunkstyle"] = r.choice(["nth", "skip", "last", "count", "fold", "stepby", "nextnth", "nextskip", "nextstep", "foldpanic", "nextfold", "wnth", "wskip", "wstep"])
         c["final"] = r.choice(["drop", "seq:1", "seq:100"])
         c["sched"] = None
         cases.append(c)
@@ -1459,6 +1466,10 @@ def chunk_style_stream(prop, tier, seed, bins, out, problems, kinds=None, chks=(
 
 def special_c08(prop, tier, seed, bins, out, problems):
     chunk_style_stream(prop, tier, seed, bins, out, problems)
+    if bins.get("wrapping") and not (set(ONLY) - {"zst"}):
+        extra_coverage.setdefault(prop, {})["zero_sized_cases"] = zst_stream(prop, tier, seed, bins["wrapping"], out, 100 if tier == "quick" else 1000)
+    if not ONLY:
+        run_probe_dir(prop, "c08", out, problems)
 
 
 SPECIAL["C08"] = special_c08
@@ -1719,14 +1730,62 @@ def style_special(chks):
 # C01: a position that one caller's chunk destroys and another caller is handed is delivered to two owners: the ledger judges
 SPECIAL["C01"] = chain(mk_special_nonfused((1,), lying=(1,)), style_special((8,)))
 SPECIAL["C03"] = chain(mk_special_nonfused((3,)), style_special((8, 2)))
-SPECIAL["C04"] = mk_special_nonfused((4, 2))
+SPECIAL["C04"] = chain(mk_special_nonfused((4, 2)), style_special((2,)))
 SPECIAL["C06"] = mk_special_nonfused((6,), lying=(6,))
 # C10: the remainder is what the wrapped iterator still holds, also behind a premature None: judged against the uncut environment
 SPECIAL["C10"] = mk_special_nonfused((10,), final="seq:100", cut_env=False)
 SPECIAL["C12"] = mk_special_nonfused((12,), lying=(5,))
+SPECIAL["C11"] = mk_special_nonfused((11, 2))
 
 
 SPECIAL["C05"] = special_c05
+
+
+def zst_stream(prop, tier, seed, binp, out, n):
+    """zero-sized elements with a destructor: they have no identity, only drop counts can be compared with the length:
+    dropped by the caller + destroyed by the machinery = number of elements"""
+    r = gen_cases.Rng(seed * 4243 + 15)
+    zc = []
+    for i in range(n):
+        c = gen_cases.gen_conc(r, "%s-zst-%d" % (prop, i), gen_cases.WITH_SKIP if r.chance(1, 2) else gen_cases.PULLS,
+                               kinds=[("vec", 4), ("array", 3), ("iter", 3)], owning_only=True)
+        c["elem"] = "zst"
+        c["sched"] = None
+        c["reps"] = 2
+        if r.chance(1, 3):
+            c["progs"] = [p[:r.below(2)] for p in c["progs"]]    # consumed not at all / hardly
+        zc.append(c)
+    if "zst" in ONLY:
+        zc = [ONLY["zst"]]
+    elif "allocator" in ONLY:
+        zc = []
+    ztr, zdead = run_impl(binp, zc)
+    zblocks, _ = parse_blocks(ztr)
+    zok = 0
+    for c in zc:
+        cid = c["id"]
+        il = zblocks.get(cid)
+        if cid in zdead or il is None:
+            out["violations"].append(dict(case=c, stream="zst", checker="process",
+                                          what="the harness process died on this case: %s" % zdead.get(cid, "no output")))
+            continue
+        if any(l.startswith("complete 0") for l in il):
+            continue
+        zl = [l for l in il if l.startswith("Z ")]
+        m = re.match(r"Z caller=(\d+) machinery=(\d+) len=(\d+)", zl[0]) if zl else None
+        if not m:
+            out["divergences"].append(dict(case=c, stream="zst", impl_trace=il, what="no drop count for this case"))
+            continue
+        a, b, ln = int(m.group(1)), int(m.group(2)), int(m.group(3))
+        zok += 1
+        c2 = json.loads(json.dumps(c))
+        c2["sched"] = sched_of(il)
+        if a + b != ln:
+            out["violations"].append(dict(case=c2, stream="zst", checker="zst-drops", impl_trace=il,
+                                          what="zero-sized elements with a destructor: %d dropped by the caller + %d destroyed by the machinery != %d elements" % (a, b, ln)))
+    out["evaluations"] += len(zc)
+    out["random_schedules"] += len(zc)
+    return zok
 
 
 def special_c15(prop, tier, seed, bins, out, problems):
@@ -1807,53 +1866,44 @@ def special_c15(prop, tier, seed, bins, out, problems):
                                               what="repeating create / consume / drop grows the live heap: %d bytes over five repetitions, %d bytes over eleven" % (g6[0], g12[0])))
     out["evaluations"] += len(rep_cases)
     out["traces_validated_against_impl"] += measured
-    # zero-sized elements with a destructor
-    r = gen_cases.Rng(seed * 4243 + 15)
-    zc = []
-    for i in range(n // 2):
-        c = gen_cases.gen_conc(r, "C15-zst-%d" % i, gen_cases.WITH_SKIP if r.chance(1, 2) else gen_cases.PULLS,
-                               kinds=[("vec", 4), ("array", 3), ("iter", 3)], owning_only=True)
-        c["elem"] = "zst"
-        c["sched"] = None
-        c["reps"] = 2
-        if r.chance(1, 3):
-            c["progs"] = [p[:r.below(2)] for p in c["progs"]]    # consumed not at all / hardly
-        zc.append(c)
-    if "zst" in ONLY:
-        zc = [ONLY["zst"]]
-    elif "allocator" in ONLY:
-        zc = []
-    ztr, zdead = run_impl(binp, zc)
-    zblocks, _ = parse_blocks(ztr)
-    zok = 0
-    for c in zc:
-        cid = c["id"]
-        il = zblocks.get(cid)
-        if cid in zdead or il is None:
-            out["violations"].append(dict(case=c, stream="zst", checker="process",
-                                          what="the harness process died on this case: %s" % zdead.get(cid, "no output")))
-            continue
-        if any(l.startswith("complete 0") for l in il):
-            continue
-        zl = [l for l in il if l.startswith("Z ")]
-        m = re.match(r"Z caller=(\d+) machinery=(\d+) len=(\d+)", zl[0]) if zl else None
-        if not m:
-            out["divergences"].append(dict(case=c, stream="zst", impl_trace=il, what="no drop count for this case"))
-            continue
-        a, b, ln = int(m.group(1)), int(m.group(2)), int(m.group(3))
-        zok += 1
-        c2 = json.loads(json.dumps(c))
-        c2["sched"] = sched_of(il)
-        if a + b != ln:
-            out["violations"].append(dict(case=c2, stream="zst", checker="zst-drops", impl_trace=il,
-                                          what="zero-sized elements with a destructor: %d dropped by the caller + %d destroyed by the machinery != %d elements" % (a, b, ln)))
-    out["evaluations"] += len(zc)
-    out["random_schedules"] += len(zc)
+    zok = zst_stream(prop, tier, seed, binp, out, n // 2)
     extra_coverage.setdefault(prop, {}).update(allocator_cases=measured, zero_sized_cases=zok,
         rule_extra="allocator stream: every history repeated three times in one process under a counting global allocator (growth confirmed on six repetitions); zero-sized stream: elements without identity, only drop counts are compared with the length")
 
 
 SPECIAL["C15"] = special_c15
+
+
+def run_probe_dir(prop, sub, out, problems, timeout=180):
+    """run-time probes under probes/<sub>/*.rs: small client programs over the public API, compiled against the current
+    tree and run; each prints `VERDICT: PASS` or `VERDICT: VIOLATION ...`"""
+    import c14
+    rlib, deps, err = c14.build_crate(REPO)
+    if err:
+        problems.append("%s probes: %s" % (prop, err))
+        return
+    pdir = os.path.join(ROOT, "probes", sub)
+    tmp = os.path.join(BUILD, "%s-%s-%d" % (sub, prop, os.getpid()))
+    os.makedirs(tmp, exist_ok=True)
+    for src in sorted(glob.glob(os.path.join(pdir, "*.rs"))):
+        name = os.path.basename(src)[:-3]
+        exe = os.path.join(tmp, name)
+        res = c14.rustc(src, exe, rlib, deps, True)
+        out["evaluations"] += 1
+        if not res["ok"]:
+            problems.append("%s probe %s does not compile against the current tree: %s" % (prop, name, " / ".join(res["rendered"])[:600]))
+            continue
+        rc, txt = sh([exe], timeout=timeout)
+        lines = txt.strip().splitlines()
+        if rc == 124 or rc == "timeout":
+            out["violations"].append(dict(case=None, stream="probes19", checker="probe", probe=name, impl_trace=lines[-20:],
+                                          what="%s probe %s did not finish within %d s (a call does not return)" % (prop, name, timeout)))
+        elif rc != 0 or not any(l.startswith("VERDICT: PASS") for l in lines):
+            out["violations"].append(dict(case=None, stream="probes19", checker="probe", probe=name, impl_trace=lines[-20:],
+                                          what="%s probe %s: %s" % (prop, name, next((l for l in lines if l.startswith("VERDICT")), "exit status %s" % rc))))
+        else:
+            out["traces_validated_against_impl"] += 1
+    shutil.rmtree(tmp, ignore_errors=True)
 
 
 def special_c19(prop, tier, seed, bins, out, problems):
@@ -1994,32 +2044,7 @@ def special_c19(prop, tier, seed, bins, out, problems):
     out["distinct_nontrivial"] += ok
     # run-time probes built against the crate as a client builds it (element types the harness does not have)
     if "multi" not in ONLY:
-        import c14
-        rlib, deps, err = c14.build_crate(REPO)
-        if err:
-            problems.append("C19 probes: " + err)
-        else:
-            pdir = os.path.join(ROOT, "probes", "c19")
-            pdir19 = os.path.join(BUILD, "c19-%d" % os.getpid())
-            os.makedirs(pdir19, exist_ok=True)
-            for src in sorted(glob.glob(os.path.join(pdir, "*.rs"))):
-                name = os.path.basename(src)[:-3]
-                exe = os.path.join(pdir19, name)
-                res = c14.rustc(src, exe, rlib, deps, True)
-                out["evaluations"] += 1
-                if not res["ok"]:
-                    problems.append("C19 probe %s does not compile against the current tree: %s" % (name, " / ".join(res["rendered"])[:600]))
-                    continue
-                rc, txt = sh([exe], timeout=120)
-                lines = txt.strip().splitlines()
-                if rc == 124 or rc == "timeout":
-                    problems.append("C19 probe %s did not finish in time" % name)
-                elif rc != 0 or not any(l.startswith("VERDICT: PASS") for l in lines):
-                    out["violations"].append(dict(case=None, stream="probes19", checker="probe", probe=name, impl_trace=lines[-20:],
-                                                  what="C19 probe %s: %s" % (name, next((l for l in lines if l.startswith("VERDICT")), "exit status %s" % rc))))
-                else:
-                    out["traces_validated_against_impl"] += 1
-            shutil.rmtree(pdir19, ignore_errors=True)
+        run_probe_dir(prop, "c19", out, problems)
     extra_coverage.setdefault(prop, {}).update(multi_iterator_histories=len(cases), single_iterator_projections=ok,
         rule_extra="multi-iterator stream: 1-2 fresh iterators and the clones that 1-3 threads create over one slice or range, one harness-chosen schedule; each iterator's history is projected out and replayed on the single-iterator model started at the position the clone read")
 
